@@ -219,7 +219,21 @@ func (e *Enc) instr(in ssa.Instruction) {
 		e.nilCheck(l.Ref, x, "store")
 		e.store(e.cur, l, e.val(x.Val))
 	case *ssa.Call:
-		e.setVal(x, e.call(x, &x.Call, x.Type()))
+		r := e.call(x, &x.Call, x.Type())
+		e.setVal(x, r)
+		if _, isBuiltin := x.Call.Value.(*ssa.Builtin); !isBuiltin && e.fc != nil && len(e.fc.AtCalls) > 0 {
+			var args []Value
+			var ats []types.Type
+			if x.Call.IsInvoke() {
+				args = append(args, e.val(x.Call.Value))
+				ats = append(ats, x.Call.Value.Type())
+			}
+			for _, a := range x.Call.Args {
+				args = append(args, e.val(a))
+				ats = append(ats, a.Type())
+			}
+			e.atCallAssertsPhase(x, callKeyOf(&x.Call), args, ats, true, e.vals[x], x.Type())
+		}
 	case *ssa.Defer:
 		e.defers = append(e.defers, x)
 	case *ssa.RunDefers:
